@@ -2,7 +2,8 @@
 import json
 import tmpl
 import tgen
-from common import Prop, cq_bytes, cq_list, cq_bool, cq_nat, cq_opt, cq_pair, unhx, hx, run_harness
+import subprocess
+from common import Prop, cq_bytes, cq_list, cq_bool, cq_nat, cq_opt, cq_pair, unhx, hx, run_harness, BuildError
 
 FUNCS = (b"Math", b"JSON", b"Object", b"stripTags", b"parseInt")
 CLS = {"ok": 0, "exec_panic": 1}
@@ -34,7 +35,20 @@ class CoreProp(Prop):
         return tc_case(nodes, datas, debug=self.debug_mode)
 
     def run(self, binary, cases, tmp, tier):
-        return run_harness(binary, self.engine, [self.harness_case(c) for c in cases])
+        return self.run_hc(binary, [self.harness_case(c) for c in cases])
+
+    def run_hc(self, binary, hcs):
+        """the whole batch in one harness process; when that process dies (a fatal Go runtime error such as stack
+        exhaustion cannot be recovered), bisect to the cases that kill it and report those as 'crash' observations"""
+        if not hcs:
+            return []
+        try:
+            return run_harness(binary, self.engine, hcs, timeout=600)
+        except (BuildError, subprocess.TimeoutExpired):
+            if len(hcs) == 1:
+                return [{"prod": {"load": "crash", "code": "", "res": []}, "debug": None}]
+            mid = len(hcs) // 2
+            return self.run_hc(binary, hcs[:mid]) + self.run_hc(binary, hcs[mid:])
 
     def emit(self, case, obs):
         nodes, datas = de(case["nodes"]), [de(d) for d in case["datas"]]
